@@ -1,3 +1,4 @@
+pub mod bed;
 pub mod checks;
 pub mod conv;
 pub mod gen;
@@ -9,6 +10,8 @@ pub mod runner;
 pub mod simnet;
 pub mod supervise;
 pub mod verdict;
+pub mod wiremon;
+pub mod world;
 
 #[global_allocator]
 static GLOBAL: meter::Meter = meter::Meter;
